@@ -358,8 +358,91 @@ fn alphabet() -> Vec<Op> {
     a
 }
 
+/// A family of handles that share one foreign-side waker (a = cx.waker().clone(); b = a.clone(); ...),
+/// retained after the poll and released *at the same moment* from several threads (drop or wake by
+/// value).  Whatever the interleaving, the caller's waker must end with its own two references
+/// and must have been woken once per wake.
+struct Grab(Arc<Mutex<Vec<Waker>>>, usize);
+impl Future for Grab {
+    type Output = u32;
+    fn poll(self: Pin<&mut Self>, cx: &mut Context<'_>) -> Poll<u32> {
+        let a = cx.waker().clone();
+        let mut v = self.0.lock().unwrap();
+        for _ in 1..self.1 {
+            v.push(a.clone());
+        }
+        v.push(a);
+        Poll::Ready(7)
+    }
+}
+
+fn race_release(rounds: u64, family: usize, seed: u64, rep: &mut Report) {
+    use std::sync::atomic::AtomicBool;
+    for r in 0..rounds {
+        let arc = Arc::new(CountWaker { wakes: AtomicU64::new(0) });
+        let weak = Arc::downgrade(&arc);
+        let waker = Waker::from(arc.clone());
+        let store = Arc::new(Mutex::new(vec![]));
+        {
+            let mut cx = Context::from_waker(&waker);
+            let mut obj = trait_obj!(Grab(store.clone(), family) as Future);
+            let _ = Pin::new(&mut obj).poll(&mut cx);
+        }
+        let handles: Vec<Waker> = std::mem::take(&mut *store.lock().unwrap());
+        let go = Arc::new(AtomicBool::new(false));
+        let pattern = seed.wrapping_add(r);
+        let mut want_wakes = 0;
+        let ths: Vec<_> = handles
+            .into_iter()
+            .enumerate()
+            .map(|(i, w)| {
+                let go = go.clone();
+                let wake = (pattern >> i) & 1 == 1;
+                want_wakes += wake as u64;
+                std::thread::spawn(move || {
+                    while !go.load(Ordering::Acquire) {
+                        std::hint::spin_loop();
+                    }
+                    if wake {
+                        w.wake()
+                    } else {
+                        drop(w)
+                    }
+                })
+            })
+            .collect();
+        go.store(true, Ordering::Release);
+        for t in ths {
+            let _ = t.join();
+        }
+        let tag = format!("race round {} family {} pattern {:#b}", r, family, pattern & ((1 << family) - 1));
+        let c = weak.strong_count();
+        if c != 2 {
+            rep.violation(if c > 2 { "C19:clone-not-released" } else { "C19:live-waker-holds-no-reference" }, &format!("{}: after all {} handles were released concurrently the caller's waker has {} references (its own 2 expected)", tag, family, c), &tag);
+            return;
+        }
+        let got = arc.wakes.load(Ordering::SeqCst);
+        if got != want_wakes {
+            rep.violation("C19:wake-count", &format!("{}: {} wakes delivered, {} issued", tag, got, want_wakes), &tag);
+            return;
+        }
+        let t = TOUCHED_AFTER_RELEASE.swap(0, Ordering::SeqCst);
+        if t != 0 {
+            rep.violation("C19:original-touched-after-last-release", &format!("{}: woken {} time(s) after its last reference was released", tag, t), &tag);
+            return;
+        }
+        rep.add("race_rounds", 1);
+    }
+}
+
 pub fn run(args: &Args, rep: &mut Report) {
     let mut rng = Rng::new(args.seed);
+    if args.has("race") {
+        let rounds = args.get("race", 1000);
+        race_release(rounds, 2, args.seed, rep);
+        race_release(rounds / 2, 3, args.seed ^ 0x55, rep);
+        return;
+    }
     let depth = args.get("depth", 4) as u32;
     let alpha = alphabet();
     let k = alpha.len() as u64;
